@@ -377,6 +377,96 @@ fn sweep_lengths<B: Backend>(acc: &mut Acc) {
     println!("PROGRESS sweep done");
 }
 
+
+// ---------------------------------------------------------------------------
+// validators on authentic tokens never panic, whatever the (authenticated) claims say
+
+#[derive(Clone, Debug, Serialize, Deserialize, PartialEq, Eq, Hash)]
+pub struct ValCase {
+    /// timestamps as (seconds, nanos) over jiff's whole range
+    pub exp: Option<(i64, u32)>,
+    pub nbf: Option<(i64, u32)>,
+    pub now_s: i64,
+    pub leeway_s: u64,
+    pub leeway_ns: u32,
+    pub end_to_end: bool,
+}
+
+const JIFF_MIN_S: i64 = -377705023201;
+const JIFF_MAX_S: i64 = 253402207200;
+
+fn extreme_ts(leeway_s: u64) -> impl Strategy<Value = Option<(i64, u32)>> {
+    let l = leeway_s as i64;
+    prop_oneof![
+        2 => Just(None),
+        2 => Just(Some((JIFF_MAX_S, 999_999_999))),
+        2 => Just(Some((JIFF_MIN_S, 0))),
+        3 => (0i64..=3, 0u32..1_000_000_000).prop_map(move |(d, ns)| Some((JIFF_MAX_S - d * l.max(1), ns))),
+        3 => (0i64..=3, 0u32..1_000_000_000).prop_map(move |(d, ns)| Some((JIFF_MIN_S + d * l.max(1), ns))),
+        2 => (0i64..=200_000, 0u32..1_000_000_000).prop_map(|(d, ns)| Some((JIFF_MAX_S - d, ns))),
+        2 => (0i64..=200_000, 0u32..1_000_000_000).prop_map(|(d, ns)| Some((JIFF_MIN_S + d, ns))),
+        3 => (-10_000_000_000i64..10_000_000_000, 0u32..1_000_000_000).prop_map(|(s, ns)| Some((s, ns))),
+    ]
+}
+
+fn val_strategy() -> impl Strategy<Value = ValCase> {
+    prop_oneof![Just(0u64), Just(1u64), 1u64..=600, 601u64..=100_000_000].prop_flat_map(|leeway_s| {
+        (extreme_ts(leeway_s), extreme_ts(leeway_s), -10_000_000_000i64..10_000_000_000, 0u32..1_000_000_000, prop::bool::weighted(0.1))
+            .prop_map(move |(exp, nbf, now_s, leeway_ns, end_to_end)| ValCase { exp, nbf, now_s, leeway_s, leeway_ns, end_to_end })
+    })
+}
+
+fn val_case(c: &ValCase, acc: &mut Acc) -> R {
+    use paseto_json::jiff::Timestamp;
+    use paseto_json::{HasExpiry, RegisteredClaims, Time, Validate};
+    let ts = |t: &Option<(i64, u32)>| t.and_then(|(s, ns)| Timestamp::new(s, ns as i32).ok());
+    let claims = RegisteredClaims { exp: ts(&c.exp), nbf: ts(&c.nbf), iat: ts(&c.exp), ..Default::default() };
+    let now = Timestamp::from_second(c.now_s).map_err(|e| Fail::new("HARNESS/c04-now", format!("{e}")))?;
+    let leeway = std::time::Duration::new(c.leeway_s, c.leeway_ns);
+    let r = catch(|| {
+        let a = Time::valid_at(now).validate(&claims).is_ok();
+        let b = Time::valid_at(now).with_leeway(leeway).validate(&claims).is_ok();
+        let d = Time::valid_at(now).with_leeway(leeway).and_then(HasExpiry).validate(&claims).is_ok();
+        // wire round trip of the extreme claims
+        let mut wire = Vec::new();
+        let enc = paseto_core::encodings::Payload::encode(claims.clone(), &mut wire).is_ok();
+        let dec = <RegisteredClaims as paseto_core::encodings::Payload>::decode(&wire).is_ok();
+        (a, b, d, enc, dec)
+    });
+    let r = r.map_err(|loc| {
+        Fail::new(
+            format!("C04/validators/panic/{}", panic_site(&loc)),
+            format!("validating claims exp={:?} nbf={:?} at now={} with leeway {}.{:09}s panicked at {loc}", c.exp, c.nbf, c.now_s, c.leeway_s, c.leeway_ns),
+        )
+    })?;
+    if c.end_to_end {
+        // the same through unseal on an authentic token
+        type B = BV4;
+        let ks = KeySeed::from_u64(hash_of(c));
+        let k = local_key::<B>(&ks);
+        let r2 = catch(|| {
+            let t = UnsealedToken::<V<B>, Local, RegisteredClaims>::new(claims.clone()).seal(&k, &[]).map(|t| t.to_string());
+            if let Ok(t) = t {
+                if let Ok(p) = t.parse::<SealedToken<V<B>, Local, RegisteredClaims, ()>>() {
+                    let _ = p.unseal(&k, &[], &Time::valid_at(now).with_leeway(leeway)).is_ok();
+                }
+            }
+        });
+        r2.map_err(|loc| Fail::new(format!("C04/paseto-v4/unseal-with-validator/panic/{}", panic_site(&loc)), format!("unsealing an authentic token with extreme claims exp={:?} nbf={:?} panicked at {loc}", c.exp, c.nbf)))?;
+    }
+    acc.eval();
+    let near_edge = |t: &Option<(i64, u32)>| t.map(|(s, _)| s > JIFF_MAX_S - 400_000_000 || s < JIFF_MIN_S + 400_000_000).unwrap_or(false);
+    if near_edge(&c.exp) || near_edge(&c.nbf) {
+        acc.nt(hash_of(c));
+        acc.class("validators:claims-near-the-timestamp-range-edge");
+    } else {
+        acc.class("validators:ordinary-claims");
+    }
+    acc.class(if r.1 { "validators:leeway-accepts" } else { "validators:leeway-rejects" });
+    acc.sample(|| json!({"exp": format!("{:?}", c.exp), "nbf": format!("{:?}", c.nbf), "now_s": c.now_s, "leeway_s": c.leeway_s, "results": format!("{r:?}")}));
+    Ok(())
+}
+
 fn subs_for<B: Backend>(out: &mut Vec<SubCheck>) {
     out.push(
         SubCheck::custom(
@@ -414,10 +504,11 @@ fn subs_for<B: Backend>(out: &mut Vec<SubCheck>) {
 pub fn def() -> PropertyDef {
     let mut subs = Vec::new();
     crate::for_backends!(B => subs_for::<B>(&mut subs));
+    subs.push(SubCheck::prop("c04.validators", 3, (30000, 600000), |_t| val_strategy(), val_case).isolated());
     PropertyDef {
         id: "C04",
         level: "exploration",
-        rule: "per back end (each in its own child process; harness built with overflow checks, repo crates with debug assertions): (a) enumeration of every decoded payload length 0..=700 x {random, 0x00, 0xff, mutated-valid} under every header of the back end, and every structured key-byte shape of the C08 catalogue; (b) proptest inputs: header + bytes, raw key bytes of every kind, library-produced valid strings of every kind with 0-4 edits (substitute / insert / delete / append / duplicate segment / swap header / truncate), arbitrary and grammar-shaped strings; each string is offered to EVERY FromStr of the back end (tokens with Vec<u8>, (), Json and RegisteredClaims payload/footer types; key texts; typed keys of all five kinds; ids; PIE; PBKW; sealed keys) and whatever parses is used: Display, unverified_footer, unseal with and without assertion, key conversion, expose, id, clone, public_key, seal / sign / wrap / seal-key to it, unwrap, params + password unwrap (KDF cost within the budget: <= 8 MiB quick / 64 MiB thorough, <= 3 passes, <= 10000 iterations; otherwise skipped and counted), unseal-key; oracle: every call returns Ok or Err - a panic is a violation keyed by its source location, a dead child process (abort / SIGSEGV) is a violation. Non-trivial iff accepted by at least one parser stage; distinct by (stages reached, length class, input class). Thorough adds libFuzzer+ASan campaigns over the same entry function",
+        rule: "per back end (each in its own child process; harness built with overflow checks, repo crates with debug assertions): (a) enumeration of every decoded payload length 0..=700 x {random, 0x00, 0xff, mutated-valid} under every header of the back end, and every structured key-byte shape of the C08 catalogue; (b) proptest inputs: header + bytes, raw key bytes of every kind, library-produced valid strings of every kind with 0-4 edits (substitute / insert / delete / append / duplicate segment / swap header / truncate), arbitrary and grammar-shaped strings; each string is offered to EVERY FromStr of the back end (tokens with Vec<u8>, (), Json and RegisteredClaims payload/footer types; key texts; typed keys of all five kinds; ids; PIE; PBKW; sealed keys) and whatever parses is used: Display, unverified_footer, unseal with and without assertion, key conversion, expose, id, clone, public_key, seal / sign / wrap / seal-key to it, unwrap, params + password unwrap (KDF cost within the budget: <= 8 MiB quick / 64 MiB thorough, <= 3 passes, <= 10000 iterations; otherwise skipped and counted), unseal-key; (c) the built-in validators (Time, TimeWithLeeway, and_then HasExpiry) and the claims codec on claims whose exp/nbf lie anywhere in jiff's range incl. MIN, MAX and within k leeways of either edge (now within +-10^10 s, leeway <= 10^8 s), directly and through unseal of an authentic token; oracle: every call returns Ok or Err - a panic is a violation keyed by its source location, a dead child process (abort / SIGSEGV) is a violation. Non-trivial iff accepted by at least one parser stage; distinct by (stages reached, length class, input class). Thorough adds libFuzzer+ASan campaigns over the same entry function",
         assumptions: vec!["attacker-chosen PBKW costs beyond the stated budget are resource exhaustion, not covered", "dangerous_seal_with_nonce with a nonce shorter than the version's own is caller misuse of an API marked dangerous, not in the domain"],
         subs,
     }
